@@ -35,6 +35,10 @@ def main():
             r = sh(f"PYTHONPATH={wt} /venv/bin/python {demo}", cwd=wt, timeout=600)
             res["demo_clean_exit"] = r.returncode
         r = sh(f"git apply {os.path.join(d, 'patch.diff')}", cwd=wt)
+        if r.returncode != 0:
+            # /repo has moved on since the change was written (later `fix:` commits): three-way apply of the same edit
+            r = sh(f"git apply --3way {os.path.join(d, 'patch.diff')} && git reset -q", cwd=wt)
+            res["patch_applied_3way"] = r.returncode == 0
         res["patch_applies"] = r.returncode == 0
         if r.returncode != 0:
             res["patch_error"] = r.stderr[-300:]
